@@ -161,6 +161,28 @@ def check_lineage(crate, rep, cfg):
     ok = bool(walk) and bool(t_edges) and any(all(fz.dominates(tgt, x) for x in walk) for sb, tgt in t_edges)
     rep.add("C04.LINEAGE", "C04.LINEAGE:finalize:ancestors-only-if-own-calls-super", ok, fz.where(own_bb), "the ancestor walk runs only on the true edge of "
             "`own chunk.is_calling_function(\"super\")`" + ("" if ok else " — VIOLATED"))
+    # ... and on nothing else: every block taken from `tpl.blocks` has its own super() test evaluated before its lineage is stored, and once the
+    # test is true the lineage cannot be stored without going through the ancestor walk (no further condition can switch the chain off)
+    blk_next = [bb for bb, t in fz.calls() if callee_def(t).endswith("Iterator::next") and "parsing::instructions::Chunk>" in (t["atys"][0] if t["atys"] else "")
+                and "std::string::String" in t["atys"][0] and fz.dominates(bb, own_bb)]
+    lin_ins = [bb for bb, t in inserts if {(l.kind, l.detail) for l in tr.operand(t["args"][2])} == {(l.kind, l.detail) for l in recv}]
+    heads_w = [bb for bb, t in fz.calls(sorted(walk)) if callee_def(t).endswith("Iterator::next")]
+    ok = bool(blk_next) and bool(lin_ins) and bool(heads_w)
+    why = "anchors (blocks loop / lineage insert / walk head) not found"
+    if ok:
+        nb = max(blk_next, key=lambda x: len([y for y in fz.reachable if fz.dominates(x, y)]) * -1)   # the innermost such next()
+        for sb, tgt in some_edges(fz, crate, nb):
+            r = fz.reach_from(tgt, removed_blocks=frozenset([own_bb]))
+            if any(x in r for x in lin_ins):
+                ok = False
+                why = "a block's lineage can be stored without its own is_calling_function(\"super\") test having been evaluated"
+        for sb, tgt in t_edges:
+            r = fz.reach_from(tgt, removed_blocks=frozenset(heads_w))
+            if any(x in r for x in lin_ins):
+                ok = False
+                why = "after the own definition was found to call super() the lineage can still be stored without walking the ancestors"
+    rep.add("C04.LINEAGE", "C04.LINEAGE:finalize:walk-iff-own-calls-super", ok, fz.where(own_bb), "whether the ancestors are walked depends on `own.is_calling_function(\"super\")` alone: "
+            "the test is evaluated for every block before its lineage is stored, and its true edge leads to the store only through the walk" + ("" if ok else " — VIOLATED: " + why))
     # push only where the ancestor defines the block, and what is pushed is that definition
     g = [x for x in gets if x[0] in walk]
     ok = len(g) == 1 and any(fz.dominates(tgt, push_bb) for sb, tgt in some_edges(fz, crate, g[0][0]))
